@@ -50,13 +50,23 @@ static void growth(Ctx& C, std::uint64_t seed)
       if (&prod->type() != &static_cast<const Lexicon&>(lex).typename_type()) C.viol(std::string("type:sequence:") + what + ":not-typename", "a product type is not typed typename");
    };
    std::vector<const Type*> ets;
+   std::vector<std::pair<std::size_t, impl::Id_expr*>> retypable;
    for (int i = 0; i <= n; ++i) {
       check("expr_list", xt, xs, i); check("expr_list", xl->type(), xs, i);
       check("parameter_list", pt, ps, i); check("parameter_list", map->parameters().type(), ps, i);
       check("scope", st, ss, i); check("scope", reg->bindings().type(), ss, i);
       check("enumeration", et, ets, i);
       if (i == n) break;
-      auto& e = P.X(); xl->push_back(&e); xs.push_back(&e.type());
+      // an element whose own type is supplied or replaced later (the documented way to complete a node): the list's type must
+      // follow the element's current type, also for components that were already read
+      if (!retypable.empty() && rng.chance(35)) {
+         auto& [idx, ie] = retypable[rng.below(retypable.size())];
+         const Type& nt = P.T(); ie->typing = &nt; xs[idx] = &nt;
+         C.count("elements_retyped_after_the_list_type_was_read");
+         check("expr_list(after retyping an element)", xt, xs, i); check("expr_list(after retyping an element)", xl->type(), xs, i);
+      }
+      if (rng.chance(30)) { auto& t0 = P.T(); auto* ie = lex.make_id_expr(*P.idents[i % 10], Optional<Type>(&t0)); xl->push_back(ie); xs.push_back(&t0); retypable.emplace_back(xs.size() - 1, ie); }
+      else { auto& e = P.X(); xl->push_back(&e); xs.push_back(&e.type()); }
       auto& t = P.T(); map->param(*P.idents[i % 10], t); ps.push_back(&t);
       auto& t2 = P.T(); reg->declare_var(*P.idents[i % 7], t2); ss.push_back(&t2);
       en->add_member(*P.idents[i % 10]); ets.push_back(en);
@@ -108,7 +118,7 @@ static void body(Ctx& C)
       }
    }
 #ifdef VH_C09
-   C.need("sequence_type_checks");
+   C.need("sequence_type_checks"); C.need("elements_retyped_after_the_list_type_was_read");
    for (int g = 0; g < (C.thorough ? 3000 : 80); ++g) growth(C, seeds.next());
 #endif
    // every declared factory must have been exercised
